@@ -378,3 +378,116 @@ def valueless_target(verdict: bool) -> bool:
              "key": P256_G, "auth_data": "dd", "signature": "3000"}
         doc = {"version": 2, "targets": ["attkey"], "elements": [e, root]}
     return check(doc, verdict, 2) or known("C16-valueless-target", verdict is True)
+
+
+# ------------------------------------------------------------------ round trip with the elements' own checks
+
+def _p256_forms():
+    """The same P-256 point in the four encodings ecdsa accepts: raw x||y, uncompressed, compressed, hybrid."""
+    x, y = bytes.fromhex(P256_G[2:66]), bytes.fromhex(P256_G[66:])
+    odd = y[-1] & 1
+    return [x + y, b"\x04" + x + y, bytes([2 + odd]) + x, bytes([6 + odd]) + x + y]
+
+
+KEY_FORMS = _p256_forms()
+KEY_FORM_NAMES = ["raw x||y", "uncompressed", "compressed", "hybrid"]
+
+
+class _VerdictKey:
+    """Public key whose signature verification is answered by the harness."""
+    def __init__(self, real, verdict):
+        self.real = real
+        self.verdict = verdict
+
+    def to_string(self, kind="raw"):
+        from sim.base import c_boundary
+        return c_boundary(self.real.to_string)(kind)
+
+    def verify_digest(self, sig, digest, sigdecode=None):
+        return self.verdict
+
+
+@obligation(tier="quick", parts=4, timeout=200, part_names=KEY_FORM_NAMES,
+            bounds="version 2 chain quote <- attestation key <- x509 with the REAL is_valid of the quote and attestation key elements "
+                   "(real ecdsa key decoding on a concrete P-256 point in 4 encodings - partition; SHA-256 native; signature verification "
+                   "answered by a symbolic verdict; the x509 element's validity a symbolic verdict); whether each binding hash sits in "
+                   "the report data symbolic (prefix | second half | nowhere); auth data 1 or 40 bytes",
+            examples=[(0, dict(vs=True, vx=True, wk=0, wq=0, long_auth=False)), (2, dict(vs=True, vx=True, wk=0, wq=0, long_auth=True)),
+                      (1, dict(vs=True, vx=True, wk=1, wq=0, long_auth=False)), (3, dict(vs=False, vx=True, wk=0, wq=0, long_auth=False))])
+def key_encodings(vs: bool, vx: bool, wk: int, wq: int, long_auth: bool) -> bool:
+    """
+    pre: 0 <= wk <= 2 and 0 <= wq <= 2
+    post: _
+    """
+    import hashlib
+    import ecdsa as real_ecdsa
+    from sim.base import c_boundary
+    from harness.c07 import report_body, place, _NativeBytes, _NativeHashlib, QUOTE_HEADER
+    from harness.catalog import pat
+    key = KEY_FORMS[part()]
+    xy = KEY_FORMS[0]
+    auth = pat(40, 9) if long_auth else b"\xdd"
+    ak_msg = report_body(place(hashlib.sha256(xy + auth).digest(), wk))
+    custom = pat(20, 5)
+    q_msg = pat(QUOTE_HEADER, 6) + report_body(place(hashlib.sha256(custom).digest(), wq))
+    doc = {"version": 2, "targets": ["quote"], "elements": [
+        {"name": "quote", "type": "sgx_quote", "message": q_msg.hex(), "custom_data": custom.hex(), "signature": "3001",
+         "signed_by": "attestation"},
+        {"name": "attestation", "type": "sgx_attestation_key", "message": ak_msg.hex(), "key": key.hex(), "auth_data": auth.hex(),
+         "signature": "3002", "signed_by": "quoting_enclave"},
+        {"name": "quoting_enclave", "type": "x509_pem", "message": "QUJD", "signed_by": "sgx_root"}]}
+
+    class _Ecdsa:
+        NIST256p = real_ecdsa.NIST256p
+        util = real_ecdsa.util
+
+        class VerifyingKey:
+            @staticmethod
+            def from_string(b, curve=None):
+                return _VerdictKey(c_boundary(real_ecdsa.VerifyingKey.from_string)(b, curve), vs)
+
+    with Patched(vx) as px:
+        # the quote's and the attestation key's own checks run; the x509 element keeps the verdict stub
+        for cls, orig in _ORIG["iv"]:
+            if cls in (c2.HSMCertificateV2ElementSGXQuote, c2.HSMCertificateV2ElementSGXAttestationKey):
+                cls.is_valid = orig
+        saved = (c2.ecdsa, c2.HSMCertificateV2ElementX509.__dict__["get_pubkey"])
+        c2.ecdsa = _Ecdsa
+        c2.bytes = _NativeBytes
+        c2.hashlib = _NativeHashlib
+        c2.HSMCertificateV2ElementX509.get_pubkey = lambda self: _VerdictKey(None, vs)
+        try:
+            res = px.load(doc)
+            if res[0] != "cert":
+                return False
+            cert = res[1]
+            _Counter.n = 0
+            out = cert.validate_and_get_values("<root of trust>")
+            want = bool(vx and vs and wk == 0 and wq == 0)
+            if list(out.keys()) != ["quote"] or bool(out["quote"][0]) != want:
+                return False
+            d1 = cert.to_dict()
+            if not preserves(doc, d1):
+                return False
+            # the saved key names the same point (any encoding)
+            saved_key = [e for e in d1["elements"] if e["name"] == "attestation"][0]["key"]
+            if c_boundary(bytes.fromhex)(saved_key) not in KEY_FORMS:
+                return False
+            res2 = px.load(d1)
+            if res2[0] != "cert":
+                return False
+            _Counter.n = 0
+            out2 = res2[1].validate_and_get_values("<root of trust>")
+            return list(out2.keys()) == ["quote"] and bool(out2["quote"][0]) == want
+        except BudgetExceeded:
+            return False
+        except Exception as e:
+            reraise_control_flow(e)
+            note("raised", type(e).__name__, str(e)[:200])
+            return False
+        finally:
+            c2.ecdsa = saved[0]
+            c2.HSMCertificateV2ElementX509.get_pubkey = saved[1]
+            c2.hashlib = hashlib
+            if "bytes" in c2.__dict__:
+                del c2.bytes
